@@ -53,6 +53,12 @@ pub fn adversarial_list() -> Vec<Vec<u8>> {
     for op in 0..=255u8 {
         v.push(vec![op]);
     }
+    // OP_RETURN payloads of the payload grammar: the special byte values in every push form, and the 76 / 80 / 255-byte text classes
+    for (label, s) in refmodel::families::opreturn_payload_scripts() {
+        if label.starts_with("special:") || label.starts_with("len76:") || label.starts_with("len80:") || label.starts_with("len255:") {
+            v.push(s);
+        }
+    }
     // the hashes the host chain's own outputs pay to, under the other templates: a row may not be disturbed by another
     // output that carries the same hash / key in a different script kind
     for seed in [41u8, 42, 43, 44, 60, 61, 62] {
@@ -262,7 +268,12 @@ pub fn run() -> Report {
             while let Some(ss) = work.pop() {
                 let (chain, injected) = host_chain(c, *field, &ss);
                 let world = World::simple(c, &chain.blocks, 0);
-                let spec = RunSpec::new(c.name, cbn);
+                // verbosity is an option like any other: batches rotate through default, -v, -vv and -vvv (the file-producing
+                // callbacks; simplestats / opreturn print their result next to the log and stay at the default)
+                let mut spec = RunSpec::new(c.name, cbn);
+                if !matches!(*cbn, "simplestats" | "opreturn") {
+                    spec.verbosity = (*b % 4) as u8;
+                }
                 let r = match wk.world_run(&world, &spec) {
                     Ok(r) => r,
                     Err(m) => return acc.machinery(m),
